@@ -31,9 +31,27 @@ impl Check for C05 {
                 let aad = bytes_of_len(ctx, la);
                 let pt = bytes_of_len(ctx, lp);
                 c05_case(ctx, &p, &aad, &pt);
+                if ctx.rng.chance(1, 6) {
+                    // an external AAD that is itself the Enc_structure of this header and some AAD: it is
+                    // data like any other and gets wrapped again
+                    let pb = crate::model::prot_slot(&p);
+                    let text = *ctx.rng.pick(&["Encrypt0", "Encrypt", "Enc_Recipient", "Mac_Recipient", "Rec_Recipient"]);
+                    let nested = crate::model::structure(text, &[&pb, &aad[..aad.len().min(40)]]);
+                    c05_case(ctx, &p, &nested, &pt);
+                    ctx.count("self-referential-aad");
+                }
                 built_then_edited_case(ctx, "Enc_structure", &p, &aad, &pt);
                 let p1 = gen_prot_variant(ctx, Origin::Built);
                 reprotect_case(ctx, "Enc_structure", &p1, &p, &aad, &pt);
+                // two headers that differ only in the sign of a floating-point zero: the second
+                // `protected()` call must replace the first, and the structures must differ
+                if ctx.rng.chance(1, 4) {
+                    let (ha, hb) = zero_twins(ctx);
+                    let (pa, pb) = (MProt { bytes: None, header: ha }, MProt { bytes: None, header: hb });
+                    reprotect_case(ctx, "Enc_structure", &pa, &pb, &aad, &pt);
+                    c05_case(ctx, &pa, &aad, &pt);
+                    c05_case(ctx, &pb, &aad, &pt);
+                }
                 decoded_edited_keeping_bytes_case(ctx, "Enc_structure", &p, &aad, &pt);
                 ctx.sample(|| J::obj(vec![("protected", J::Str(format!("{:?}", p.bytes.as_ref().map(|b| crate::rcbor::hex(b))))), ("aad_len", J::UInt(la as u64)), ("outcome", J::s("all helper outputs equal the RFC 8152 Enc_structure for the carrier's / caller's context; refusals observed"))]));
             }
